@@ -2,8 +2,27 @@ import QuartzModel.Proofs.ParseLemmas
 /-!
 # C07 — the cron parser accepts the documented format with its documented meaning and rejects the rest
 
-All statements are about the default `Bounds` (`{}`), i.e. the boundaries `buildCronField` uses
-(`Theorems/Facts.lean` ties them to the Go source). Helper lemmas are in `Proofs/ParseLemmas.lean`.
+All expression-level statements are about the default `Bounds` (`{}`), i.e. the boundaries
+`buildCronField` uses (`Theorems/Facts.lean` ties them to the Go source). Helper lemmas are in
+`Proofs/ParseLemmas.lean`.
+
+* accepted ⇒ well-formed: `parse_wellFormed`, `newTrigger_wellFormed`, `parseField_inRange`,
+  `parseField_no_special`, `parseDom_shape`, `parseDow_shape`
+* rejections: `C07_rejects_field_count`, `C07_rejects_both_days`, `C07_rejects_bad_step`,
+  `C07_rejects_bad_step_start`, `C07_rejects_bad_single`, `C07_rejects_bad_range`,
+  `C07_rejects_bad_list_member` (+ `C07_list_member_as_field`)
+* documented meaning: `C07_macros`, `C07_whitespace` (+ `_between`, `_leading`, `_trailing`),
+  `C07_missing_year`, names and case (`normalize_name`, `normalize_glossary`, `normalize_month`,
+  `normalize_day`, `C07_name_synonym`, `C07_name_synonym_range`), `atoi_render`, round trips
+  (`C07_roundtrip_single/_name/_range/_step/_star_step/_range_step`), `C07_list_meaning`,
+  `C07_seven_fields`, `C07_accepts`
+
+Deviations from the requested statements (intent unchanged):
+* `normalize_name`, `normalize_month`, `normalize_day`, `atoi_render` write the result as
+  `some (i : Int)`; a bare `some i` with `i : Nat` elaborates to a monadic lift
+  (`do let a ← some i; pure ↑a`) instead of `some ↑i`.
+* the round trips carry `bd.upper ≤ maxInt64`: `strconv.Atoi` fails beyond int64, so without it the
+  statement is false for absurd bounds (all real bounds are ≤ 3940).
 -/
 namespace Cron
 
@@ -369,6 +388,81 @@ theorem C07_list_member_as_field (fld : Str) (b : Bound) (names : List Str) (t :
   intro hc
   exact splitOn_no_sep_mem ',' fld t ht ',' (by simpa using hc) rfl
 
+/-! ## whitespace, concretely (extra)
+
+`C07_whitespace` says the parse depends only on `trimExpr s`; these three say what `trimExpr`
+ignores: how much and which RE2 white space (`\t \n \f \r` blank) separates two parts, and any white
+space at either end. -/
+
+/-- any non-empty run of white space between two parts can be replaced by any other -/
+theorem C07_whitespace_between (x y w1 w2 : Str) (h1 : w1 ≠ []) (h2 : w2 ≠ [])
+    (a1 : ∀ c ∈ w1, isReSpace c = true) (a2 : ∀ c ∈ w2, isReSpace c = true) :
+    parse {} (x ++ w1 ++ y) = parse {} (x ++ w2 ++ y) :=
+  C07_whitespace _ _ (trimExpr_between x y w1 w2 h1 h2 a1 a2)
+
+/-- leading white space is ignored -/
+theorem C07_whitespace_leading (w x : Str) (hw : ∀ c ∈ w, isReSpace c = true) :
+    parse {} (w ++ x) = parse {} x :=
+  C07_whitespace _ _ (trimExpr_leading w x hw)
+
+/-- trailing white space is ignored -/
+theorem C07_whitespace_trailing (x w : Str) (hw : ∀ c ∈ w, isReSpace c = true) :
+    parse {} (x ++ w) = parse {} x :=
+  C07_whitespace _ _ (trimExpr_trailing x w hw)
+
+/-! ## the list field, exactly (extra) -/
+
+/-- a list means the sorted union of its members, each parsed on its own as a step, a range or a
+    single value (`parseMember`); it is accepted iff every member is -/
+theorem C07_list_meaning (fld : Str) (b : Bound) (names : List Str) (hc : fld.contains ',' = true) :
+    parseField fld b names =
+      (mapM' (fun t => parseMember t b names) (splitOn ',' fld)).map
+        (fun vs => { values := sortNat vs.flatten }) := by
+  have w1 : fld ≠ ['*'] := by intro h; rw [h] at hc; revert hc; decide
+  have w2 : fld ≠ ['?'] := by intro h; rw [h] at hc; revert hc; decide
+  unfold parseField
+  simp only [w1, w2, or_self, if_false, hc, if_true, parseList_eq, Option.map_map]
+  rfl
+
+/-! ## the expression level, exactly (extra) -/
+
+/-- a seven-field expression is accepted iff at least one day field is unrestricted and every field
+    is accepted by its own parser; the result is assembled field by field (`buildFields`) -/
+theorem C07_seven_fields (s : Str) (hm : specialTable.lookup (trimExpr s) = none)
+    (t0 t1 t2 t3 t4 t5 t6 : Str) (hs : splitOn ' ' (trimExpr s) = [t0, t1, t2, t3, t4, t5, t6]) :
+    parse {} s =
+      if anyDay t3 || anyDay t5 then buildFields {} [t0, t1, t2, t3, t4, t5, t6] else none := by
+  unfold parse
+  rw [parseExpr_eq, tokensOf_of_lookup_none hm, hs]
+  unfold parseTokens
+  cases h3 : anyDay t3 <;> cases h5 : anyDay t5 <;> simp [h3, h5]
+
+/-- every expression made of seven individually accepted fields, one day field unrestricted, is
+    accepted, with exactly the field-wise meaning -/
+theorem C07_accepts (s : Str) (hm : specialTable.lookup (trimExpr s) = none)
+    (t0 t1 t2 t3 t4 t5 t6 : Str) (hs : splitOn ' ' (trimExpr s) = [t0, t1, t2, t3, t4, t5, t6])
+    (hd : anyDay t3 = true ∨ anyDay t5 = true) (f0 f1 f2 f3 f4 f5 f6 : Field)
+    (h0 : parseField t0 ⟨0, 59⟩ [] = some f0) (h1 : parseField t1 ⟨0, 59⟩ [] = some f1)
+    (h2 : parseField t2 ⟨0, 23⟩ [] = some f2) (h3 : parseDom t3 ⟨1, 31⟩ = some f3)
+    (h4 : parseField t4 ⟨1, 12⟩ monthNames = some f4) (h5 : parseDow t5 ⟨1, 7⟩ = some f5)
+    (h6 : parseField t6 ⟨1970, 3940⟩ [] = some f6) :
+    parse {} s = some { sec := f0, min := f1, hour := f2, dom := f3, month := f4,
+                        dow := { f5 with values := f5.values.map (· - 1) }, year := f6 } := by
+  rw [C07_seven_fields s hm t0 t1 t2 t3 t4 t5 t6 hs]
+  have : (anyDay t3 || anyDay t5) = true := by rcases hd with h | h <;> simp [h]
+  rw [this]
+  show buildFields {} [t0, t1, t2, t3, t4, t5, t6] = _
+  unfold buildFields
+  simp only
+  have e0 : parseField t0 ({} : Bounds).sec [] = some f0 := h0
+  have e1 : parseField t1 ({} : Bounds).min [] = some f1 := h1
+  have e2 : parseField t2 ({} : Bounds).hour [] = some f2 := h2
+  have e3 : parseDom t3 ({} : Bounds).dom = some f3 := h3
+  have e4 : parseField t4 ({} : Bounds).month monthNames = some f4 := h4
+  have e5 : parseDow t5 ({} : Bounds).dow = some f5 := h5
+  have e6 : parseField t6 ({} : Bounds).year [] = some f6 := h6
+  rw [e0, e1, e2, e3, e4, e5, e6]
+
 /-! ## non-vacuity: the hypotheses are satisfiable on concrete, non-trivial inputs -/
 
 section NonVacuity
@@ -530,6 +624,35 @@ example : parseList "1,2-x,3".toList ⟨0, 59⟩ [] = none :=
   C07_rejects_bad_list_member _ _ _ "2-x".toList (by decide) (by decide)
 example : parseList "1,*,3".toList ⟨0, 59⟩ [] = none :=
   C07_rejects_bad_list_member _ _ _ "*".toList (by decide) (by decide)
+
+/-! extras -/
+
+/-- `C07_whitespace_between/leading/trailing` -/
+example : parse {} "0 0\t\n 12 * * ?".toList = parse {} "0 0 12 * * ?".toList :=
+  C07_whitespace_between "0 0".toList "12 * * ?".toList "\t\n ".toList " ".toList (by decide) (by decide)
+    (by decide) (by decide)
+example : parse {} " \n0 0 12 * * ?".toList = parse {} "0 0 12 * * ?".toList :=
+  C07_whitespace_leading " \n".toList _ (by decide)
+example : parse {} "0 0 12 * * ?\r\n".toList = parse {} "0 0 12 * * ?".toList :=
+  C07_whitespace_trailing "0 0 12 * * ?".toList "\r\n".toList (by decide)
+/-- white space is a separator, though: removing it altogether changes the field count -/
+example : parse {} "0 012 * * ?".toList = none := by decide
+
+/-- `C07_list_meaning` -/
+example : parseField "dec,1-3,2/5,Jun".toList ⟨1, 12⟩ monthNames =
+    some { values := sortNat ([[12], [1, 2, 3], [2, 7, 12], [6]] : List (List Nat)).flatten } :=
+  (C07_list_meaning _ _ _ (by decide)).trans (by decide)
+
+/-- `C07_seven_fields`, `C07_accepts` -/
+example : parse {} "0 0/5 14,18 * JAN-mar ? 2030".toList =
+    some { exAcceptedFields with year := { values := [2030] } } :=
+  C07_accepts _ (by decide) "0".toList "0/5".toList "14,18".toList "*".toList "JAN-mar".toList
+    "?".toList "2030".toList (by decide) (Or.inl (by decide)) _ _ _ _ _ _ _
+    (by decide : _ = some { values := [0] })
+    (by decide : _ = some { values := [0, 5, 10, 15, 20, 25, 30, 35, 40, 45, 50, 55] })
+    (by decide : _ = some { values := [14, 18] }) (by decide : _ = some { values := [] })
+    (by decide : _ = some { values := [1, 2, 3] }) (by decide : _ = some { values := [] })
+    (by decide : _ = some { values := [2030] })
 
 end NonVacuity
 
